@@ -7,6 +7,7 @@ import json
 import re
 
 from .. import framework as fw
+from .. import devices_source
 
 HEADER = ('From FJ Require Import Lib.Base Spec.MachineSpec Spec.IOSpec Model.Devices.\n'
           'Local Open Scope N_scope.\n')
@@ -262,6 +263,7 @@ def campaign_fixed(ctx):
         ctx.hist('fixed_input_bytes', '0' if not data else '1-3' if len(data) < 4 else '4-24')
         trace_stats(ctx, 'FixedIO', j['ops'], r['obs'])
     ctx.sample({'device': 'FixedIO', 'input': jobs[0]['input'], 'ops': jobs[0]['ops'][:40], 'answers': [show_obs(o) for o in res[0]['obs'][:40]]})
+    devices_source.compare(ctx, 'fixed', terms)       # the regenerated FixedIO (PyIR.exec in Coq) against the same answers
     fast = [f'({ilist(bytes.fromhex(j["input"]))},{ilist(j["ops"])},{obs63(r["obs"])})' for j, r in zip(jobs, res)]
     oks = fw.coq_eval_shards(ctx, 'fixed', H63, fast, 'check_fixed63', shard=150)
     bad = sorted((i for i, ok in enumerate(oks) if ok is False), key=lambda i: len(jobs[i]['ops']) + len(jobs[i]['input']))
@@ -287,6 +289,7 @@ def campaign_standard(ctx):
         ctx.count(('standard', j['verbose'], tuple(j['stdin']), tuple(j['ops'])), bool(j['ops']))
         ctx.hist('standard_verbose', j['verbose'])
         trace_stats(ctx, 'StandardIO', j['ops'], r['obs'])
+    devices_source.compare(ctx, 'standard', terms)    # the regenerated StandardIO against the same answers and stdout
     fast = [f'({blit(j["verbose"])},{ilist(j["stdin"])},{ilist(j["ops"])},{obs63(r["obs"])},{ilist(r["stdout"])})' for j, r in zip(jobs, res)]
     oks = fw.coq_eval_shards(ctx, 'standard', H63, fast, 'check_standard63', shard=150)
     bad = sorted((i for i, ok in enumerate(oks) if ok is False), key=lambda i: len(jobs[i]['ops']) + len(jobs[i]['stdin']))
@@ -519,7 +522,10 @@ def campaign_broken(ctx):
 # ---- entry points -------------------------------------------------------------------------------------------
 
 def run(ctx):
-    fw.static_proofs(ctx, ['Properties/C17.v'], extra_targets=['Model/Devices.vo'])
+    # T-gen for Model/Devices.v: FixedIO / StandardIO are re-translated from the current source into the IR of Model/PyIR.v
+    # and proved equal to the hand model (Tie/Devices_tie.v, Properties/C17_source.v)
+    src_props, src_targets = devices_source.prepare(ctx)
+    fw.static_proofs(ctx, ['Properties/C17.v'] + src_props, extra_targets=['Model/Devices.vo'] + src_targets)
     campaign_pack(ctx)
     campaign_fixed(ctx)
     campaign_standard(ctx)
